@@ -228,7 +228,7 @@ theorem AppliedC.clean {pt sch : Levels} {tbls : List (Bytes × Levels)} {r : Wa
 theorem PtSelf.clean {pt : Levels} (h : PtSelf pt) : PtSelf (clean pt) := by
   intro off hm
   rw [ptEntries_clean] at hm
-  rw [rootOff_clean]
+  rw [offs_clean]
   exact h off hm
 
 theorem FreshM.clean {s s' : Store} {tbls : List (Bytes × Levels)} (hf : FreshM s tbls)
